@@ -71,8 +71,29 @@ fn role_scenario(name: &str) -> String {
     out.join(" ")
 }
 
+/// successive name UPDATES on ONE token config through the real `TokenConfigExt::update` (hook `verif::c35`): first call `init = true`,
+/// later ones `init = false`. A failing call is rolled back (the transaction aborts), so it is applied to a copy first.
+fn tc_updates(names: &[String]) -> String {
+    use gmsol_utils::token_config::{TokenConfig, UpdateTokenConfigParams};
+    let mut cfg: TokenConfig = Zeroable::zeroed();
+    let mut inited = false;
+    let mut out = Vec::new();
+    for n in names {
+        let mut copy = cfg;
+        let r = gmsol_store::verif::c35::token_config_update(&mut copy, n, false, 6, UpdateTokenConfigParams::default(), true, !inited);
+        let tag = match &r { Ok(()) => { cfg = copy; inited = true; "ok".to_string() } Err(e) => etag(e) };
+        let back = match cfg.name() { Ok(s) => tohex(s.as_bytes()), Err(_) => "unreadable".into() };
+        out.push(format!("{tag}:{back}"));
+    }
+    out.join(" ")
+}
+
 fn exec_inner(t: &[&str]) -> Option<String> {
     if t.len() < 3 || t[0] != "fstr" { return None; }
+    if t[1] == "tcupd" && t.len() == 3 {
+        let names: Option<Vec<String>> = t[2].split(',').map(|h| unhex(h).and_then(|b| String::from_utf8(b).ok())).collect();
+        return Some(tc_updates(&names?));
+    }
     if t[1] == "rolescn" && t.len() == 3 {
         let b = unhex(t[2])?; let name = std::str::from_utf8(&b).ok()?;
         return Some(role_scenario(name));
@@ -109,6 +130,21 @@ fn exec(req: &str) -> String {
 fn oracle(req: &str, resp: &str) -> Result<Option<&'static str>, String> {
     if resp == "panic" { return Err("panicked".into()); }
     let t: Vec<&str> = req.split(' ').collect();
+    if t[1] == "tcupd" {
+        // after EVERY step: the name read back is exactly the last accepted name of the history (independent of the model)
+        let names: Vec<Vec<u8>> = t[2].split(',').map(|h| unhex(h).unwrap()).collect();
+        let steps: Vec<&str> = resp.split(' ').collect();
+        if steps.len() != names.len() { return Err("scenario truncated".into()); }
+        let mut last: Vec<u8> = vec![];
+        for (i, (st, n)) in steps.iter().zip(&names).enumerate() {
+            let (tag, back) = st.split_once(':').ok_or("malformed step")?;
+            let acceptable = n.len() <= 32 && !n.contains(&0);
+            if tag == "ok" { if !acceptable { return Err(format!("step {i}: unreadable name accepted")); } last = n.clone(); }
+            else if acceptable { return Err(format!("step {i}: readable name rejected ({tag})")); }
+            if back != tohex(&last) { return Err(format!("step {i}: after updating to {} the name reads back as {back} (last accepted name is {})", tohex(n), tohex(&last))); }
+        }
+        return Ok(Some("tcupd"));
+    }
     if t[1] == "rolescn" {
         let f: Vec<&str> = resp.split(' ').collect();
         if f.len() != 10 { return Err("scenario truncated".into()); }
@@ -139,6 +175,21 @@ fn name_of_len(r: &mut Rng, len: usize) -> Vec<u8> {
 }
 
 fn gen_req(r: &mut Rng) -> String {
+    if r.chance(1, 4) {
+        // a history of name updates on one token config: decreasing, increasing and mixed lengths, some rejected names
+        let k = r.range(2, 6) as usize;
+        let mode = r.below(3);
+        let mut len = match mode { 0 => 32usize, 1 => r.below(4) as usize, _ => r.below(33) as usize };
+        let mut names = Vec::new();
+        for _ in 0..k {
+            let mut n = name_of_len(r, len);
+            if r.chance(1, 10) && !n.is_empty() { let i = r.below(n.len() as u64) as usize; if n[i] < 0x80 { n[i] = 0; } }
+            if r.chance(1, 12) { let l2 = 33 + r.below(8) as usize; n = name_of_len(r, l2); }
+            names.push(tohex(&n));
+            len = match mode { 0 => len.saturating_sub(r.range(1, 12) as usize), 1 => (len + r.range(1, 12) as usize).min(32), _ => r.below(33) as usize };
+        }
+        return format!("fstr tcupd {}", names.join(","));
+    }
     let (kind, l) = *r.pick(&[("rolescn", 32usize), ("rolescn", 32), ("w.store", 32), ("w.market", 64), ("w.role", 32), ("w.executor", 32), ("w.token", 32)]);
     let len = match r.below(8) { 0 => 0, 1 | 2 => l, 3 => l - 1, 4 => l + 1, 5 => l + r.range(1, 40) as usize, _ => r.below(l as u64 + 1) as usize };
     let mut n = name_of_len(r, len);
